@@ -453,8 +453,11 @@ func init() {
 			return nil
 		},
 		"runtime/debug.SetMemoryLimit": func(fr *frame, args []value) value {
-			X.stub("debug.SetMemoryLimit: returns math.MaxInt64")
-			return int64(math.MaxInt64)
+			// free memory is arbitrary: both outcomes of engine.makeSlice are explored
+			X.stub("debug.SetMemoryLimit: returns an arbitrary non-negative limit (symbolic)")
+			v := X.freshVar("memlimit", smt.BV64)
+			X.S.Assert(smt.BVSge(v, smt.BVConst(0, 64)))
+			return &sym{types.Int64, v}
 		},
 		"runtime.NumGoroutine": func(fr *frame, args []value) value { return numGoroutines() },
 		"runtime.Gosched":      func(fr *frame, args []value) value { return nil },
@@ -505,10 +508,32 @@ func init() {
 
 		// --- strconv on concrete values ---
 		"strconv.FormatFloat": func(fr *frame, args []value) value {
-			if isSym(args[0]) {
-				unsupported("strconv.FormatFloat(symbolic)")
+			if s, ok := args[0].(*sym); ok {
+				// number text is outside every claim (DESIGN §7): the path continues with ONE solver-chosen value
+				// of the float (an under-approximation of this path, recorded as a stub)
+				X.stub("strconv.FormatFloat(symbolic): path restricted to one solver-chosen value")
+				bits := X.freshVar("fmtbits", smt.BV64)
+				X.S.Assert(smt.Eq(smt.FPFromBits(bits), s.t))
+				if X.check() != smt.Sat {
+					panic(pathEnd{endUnknown, "FormatFloat witness"})
+				}
+				m, err := X.S.GetModel()
+				if err != nil || m[bits.Lit] == nil {
+					panic(pathEnd{endUnknown, "FormatFloat model"})
+				}
+				v := m[bits.Lit].Uint64()
+				X.S.Assert(smt.Eq(bits, smt.BVConst(v, 64)))
+				args = append([]value{math.Float64frombits(v)}, args[1:]...)
 			}
 			return strconv.FormatFloat(args[0].(float64), byte(asInt64(args[1])), int(asInt64(args[2])), int(asInt64(args[3])))
+		},
+		"strconv.FormatInt": func(fr *frame, args []value) value {
+			v := witnessInt(args[0], types.Int64)
+			return strconv.FormatInt(v.(int64), int(asInt64(args[1])))
+		},
+		"strconv.Itoa": func(fr *frame, args []value) value {
+			v := witnessInt(args[0], types.Int)
+			return strconv.Itoa(v.(int))
 		},
 		"strconv.ParseFloat": func(fr *frame, args []value) value {
 			f, err := strconv.ParseFloat(strEnum(args[0]), int(asInt64(args[1])))
@@ -601,10 +626,16 @@ func init() {
 		"strings.Index": func(fr *frame, args []value) value {
 			a, aok := args[0].(string)
 			b, bok := args[1].(string)
-			if !aok || !bok {
-				unsupported("strings.Index on symbolic string")
+			if aok && bok {
+				return strings.Index(a, b)
 			}
-			return strings.Index(a, b)
+			sa, sb := toSString(args[0]), toSString(args[1])
+			for i := 0; i+len(sb) <= len(sa); i++ {
+				if decideBool(symStringBinop(token.EQL, normString(sa[i:i+len(sb):i+len(sb)]), normString(sb))) {
+					return i
+				}
+			}
+			return -1
 		},
 		"internal/bytealg.CountString": func(fr *frame, args []value) value {
 			a, aok := args[0].(string)
@@ -626,6 +657,11 @@ func init() {
 				n++
 			}
 			return n
+		},
+		"io/fs.ReadFile": func(fr *frame, args []value) value {
+			// the operating system is not modelled: every file is absent (consult/ensure_loaded of files is outside)
+			X.stub("io/fs.ReadFile: every file is absent")
+			return tuple{[]value(nil), makeErrorString(fr.i, "file does not exist")}
 		},
 		"os.Exit": func(fr *frame, args []value) value {
 			unsupported("os.Exit called")
@@ -659,6 +695,31 @@ func extStringCompare(fr *frame, args []value) value {
 	z := termOf(int(0), types.Int)
 	p1 := termOf(int(1), types.Int)
 	return mkSym(types.Int, smt.Ite(lt, m1, smt.Ite(eq, z, p1)))
+}
+
+// witnessInt: number text is outside every claim (DESIGN §7): a symbolic integer that is about to be formatted is
+// replaced by ONE solver-chosen value on this path (an under-approximation, recorded as a stub).
+func witnessInt(v value, k types.BasicKind) value {
+	s, ok := v.(*sym)
+	if !ok {
+		return v
+	}
+	if X.IntMode {
+		unsupported("formatting a symbolic integer in int mode")
+	}
+	X.stub("formatting a symbolic integer: path restricted to one solver-chosen value")
+	probe := X.freshVar("fmtint", s.t.Sort)
+	X.S.Assert(smt.Eq(probe, s.t))
+	if X.check() != smt.Sat {
+		panic(pathEnd{endUnknown, "FormatInt witness"})
+	}
+	m, err := X.S.GetModel()
+	if err != nil || m[probe.Lit] == nil {
+		panic(pathEnd{endUnknown, "FormatInt model"})
+	}
+	bits := m[probe.Lit].Uint64()
+	X.S.Assert(smt.Eq(probe, smt.BVConst(bits, s.t.Sort.W)))
+	return concOf(k, bits)
 }
 
 // concretizeString enumerates the symbolic bytes of s on this path.
